@@ -227,6 +227,7 @@ func (r *c20Run) do(o FOp, hist []FOp) (findings []explore.Finding, outcome stri
 	var newEnt p9p.Dirent
 	var qids []p9p.Qid
 	var dirNext p9p.ReadNext
+	var opened p9p.File
 	p := catch(func() {
 		switch o.Kind {
 		case "attach":
@@ -234,7 +235,7 @@ func (r *c20Run) do(o FOp, hist []FOp) (findings []explore.Finding, outcome stri
 		case "walk":
 			qids, newEnt, err = e.ent.Walk(ctx, o.Names...)
 		case "open":
-			_, err = e.ent.Open(ctx, o.Mode)
+			opened, err = e.ent.Open(ctx, o.Mode)
 		case "opendir":
 			dirNext, err = e.ent.OpenDir(ctx)
 		case "create":
@@ -341,6 +342,18 @@ func (r *c20Run) do(o FOp, hist []FOp) (findings []explore.Finding, outcome stri
 			}
 			if exp.OK {
 				e.open = true
+			}
+			// a read through the opened file is one read on the entry's own fid
+			if o.Kind == "open" && err == nil && opened != nil {
+				rdStart := len(r.spy.log)
+				if pn := catch(func() { opened.Read(ctx, make([]byte, 8), 0) }); pn != "" {
+					r.poison = true
+					bad("panic:file-read", "%s: reading through the opened file panicked or never returns: %s", o, pn)
+				}
+				rc := r.spy.log[rdStart:]
+				if len(rc) != 1 || rc[0].M != "read" || rc[0].Fid != e.fid {
+					bad("wrong-session-call:file-read", "%s: a read through the opened file issued session calls %+v, expected exactly one read on the entry's own fid %d", o, rc, e.fid)
+				}
 			}
 			// a listing read to its end issues nothing but reads on the
 			// entry's own fid (the fid-table comparison below then shows
